@@ -308,8 +308,12 @@ func initializeSensors(controllers []*hwmon.HwMonController) error {
 					return fmt.Errorf("failed to match platform regex of %s (%s) against controller platform %s: %v", config.ID, config.HwMon.Platform, c.Platform, err)
 				}
 				if matched {
+					hwmonSensor, exists := c.Sensors[config.HwMon.Index]
+					if !exists {
+						return fmt.Errorf("couldn't find temperature input with index %d on hwmon device with platform '%s' for sensor: %s. Run 'fan2go detect' again and correct any mistake", config.HwMon.Index, c.Platform, config.ID)
+					}
 					found = true
-					config.HwMon.TempInput = c.Sensors[config.HwMon.Index].Input
+					config.HwMon.TempInput = hwmonSensor.Input
 				}
 			}
 			if !found {
